@@ -1,11 +1,20 @@
 #!/usr/bin/env python3
-"""Re-confirm every candidate mutant under /tmp/mut/*-out/m* with tools/try_mutant.py and keep the confirmed ones as /verif/seeded/<id>/."""
+"""Re-confirm every candidate mutant under <root>/*-out/m* with tools/try_mutant.py and keep the confirmed ones as /verif/seeded/<id>/.
+usage: collect_seeded.py [root=/tmp/mut] [round-prefix=""] [only-group]"""
 import json, os, shutil, subprocess, sys
+ROOT = sys.argv[1] if len(sys.argv) > 1 else "/tmp/mut"
+PREFIX = sys.argv[2] if len(sys.argv) > 2 else ""
+ONLY = sys.argv[3] if len(sys.argv) > 3 else None
 PROPS = {"C01": "C01,C02,C15", "C02": "C02,C09,C01", "C03": "C03,C04,C12", "C05": "C05,C06,C01", "C07": "C07,C08", "C09": "C09,C11,C12,C08",
-         "C13": "C13,C14,C15", "C10": "C10,C12,C19", "C16": "C16,C17,C18"}
+         "C13": "C13,C14,C15", "C10": "C10,C12,C19", "C16": "C16,C17,C18",
+         # round 2 (groups of properties per agent)
+         "A": "C01,C02,C06,C14,C15", "B": "C03,C04,C05,C12", "C": "C07,C08", "D": "C09,C11,C12,C08", "E": "C13,C14,C15,C05", "F": "C10,C19",
+         "G": "C16,C17", "H": "C18,C08,C10"}
 out = []
 for grp in sorted(PROPS):
-    d = f"/tmp/mut/{grp}-out"
+    if ONLY and grp != ONLY:
+        continue
+    d = f"{ROOT}/{grp}-out"
     if not os.path.isdir(d):
         continue
     for m in sorted(os.listdir(d)):
@@ -17,7 +26,7 @@ for grp in sorted(PROPS):
             print(md, "EVAL FAILED", r.stdout[-300:]); continue
         meta = json.load(open(os.path.join(md, "meta.json")))
         confirmed = res.get("demo_clean_rc") == 0 and res.get("demo_mutant_rc") not in (0, None) and not res.get("tests_missing")
-        sid = f"{meta.get('property', grp)}-{grp}{m}"
+        sid = f"{meta.get('property', grp)}-{PREFIX}{grp}{m}"
         line = {"id": sid, "confirmed": confirmed, "detected_by": res.get("detected_by"), "kinds": {p: v.get("kinds") for p, v in res.get("checks", {}).items() if v["rc"] == 1}}
         print(json.dumps(line)); sys.stdout.flush()
         if confirmed:
